@@ -577,6 +577,9 @@ def agg_value(agg, vals, distinct, sep):
             c = order_key_cmp(v, best)
             if (agg == "min" and c < 0) or (agg == "max" and c > 0):
                 best = v
+        ties = {v for v in present if order_key_cmp(v, best) == 0}
+        if len(ties) > 1:
+            return ("sample", frozenset(ties))  # several terms share the extreme value (1 and 1.0): any of them is a correct answer
         return best
     if agg == "sample":
         if not present:
